@@ -37,7 +37,10 @@ ASSUMPTIONS = [
     "an RS(12,9) code has minimum distance 4 (any three columns alpha^(j*e) of the parity-check matrix are Vandermonde), so "
     "'check is False' is the expected verdict for every error of 1..3 symbols; the oracle recomputes the verdict from the "
     "reference syndromes for every pattern instead of assuming it",
-    "inputs: bytes objects of length 9 / 12 and 3-octet masks (other lengths are documented assertion errors)",
+    "inputs: bytes objects of length 9 / 12 and 3-octet masks (other lengths are documented assertion errors); every "
+    "generate / check_word case is repeated with the containers the unchanged tree accepts and gets right (probed 2026-09: "
+    "message / word as bytes or bytearray, mask as bytes, bytearray or memoryview; memoryview / list / tuple messages raise "
+    "TypeError today and are not generated)",
 ]
 
 STD_MASKS = {"none": "000000", "VoiceLCHeader": "969696", "TerminatorWithLC": "999999"}
@@ -59,6 +62,14 @@ def oracle_multiply(case):
     exp = gf256.mul(a, b)
     if got != exp or isinstance(got, bool) or not isinstance(got, int):
         raise Fail("product_equals_gf256", got, exp)
+
+
+DATA_REPS = ["bytes", "bytearray"]
+MASK_REPS = ["bytes", "bytearray", "memoryview"]
+
+
+def _octets(raw: bytes, rep: str):
+    return bytearray(raw) if rep == "bytearray" else memoryview(raw) if rep == "memoryview" else raw
 
 
 def _generate(msg: bytes, mask: bytes):
@@ -87,6 +98,20 @@ def oracle_generate(case):
     ok = call(RS().check, word, mask)[1]
     if ok is not True:
         raise Fail("generated_word_accepted_under_same_mask", ok, True)
+    # the same octets in the other containers the unchanged tree accepts (lesson A.1; see ASSUMPTIONS)
+    for dk in DATA_REPS:
+        for mk in MASK_REPS:
+            if (dk, mk) == ("bytes", "bytes"):
+                continue
+            d, k = _octets(msg, dk), _octets(mask, mk)
+            got = call(RS().generate, d, k)[1]
+            if bytes(d) != msg or bytes(k) != mask:
+                raise Fail("input_not_mutated", [bytes(d).hex(), bytes(k).hex()], [msg.hex(), mask.hex()], f"{dk}/{mk}")
+            if not isinstance(got, (bytes, bytearray)) or bytes(got) != word:
+                raise Fail("generate_independent_of_container", repr(got), word.hex(), f"{dk}/{mk}")
+            ok = call(RS().check, _octets(word, dk), _octets(mask, mk))[1]
+            if ok is not True:
+                raise Fail("generated_word_accepted_under_same_mask", ok, True, f"{dk}/{mk}")
 
 
 _GMUL = []
@@ -176,9 +201,11 @@ def oracle_check_word(case):
     """case = {word: hex24, mask: hex6}: check(word, mask) is True exactly when the unmasked word has zero syndromes."""
     word, mask = bytes.fromhex(case["word"]), bytes.fromhex(case["mask"])
     exp = gf256.is_codeword(list(word), list(mask))
-    ok = call(RS().check, word, mask)[1]
-    if ok is not exp:
-        raise Fail("checker_accepts_exactly_zero_syndrome_words", ok, exp, "accepts_non_codeword" if not exp else "rejects_codeword")
+    for dk in DATA_REPS:
+        for mk in MASK_REPS:
+            ok = call(RS().check, _octets(word, dk), _octets(mask, mk))[1]
+            if ok is not exp:
+                raise Fail("checker_accepts_exactly_zero_syndrome_words", ok, exp, ("accepts_non_codeword" if not exp else "rejects_codeword") + ("" if (dk, mk) == ("bytes", "bytes") else f":{dk}/{mk}"))
 
 
 def oracle_fault(case):
